@@ -1,10 +1,465 @@
+import SpVerif.Props.C05
 import SpVerif.Props.C06Fixed
-import SpVerif.Model.Eof
-import SpVerif.Model.Finished
-import SpVerif.Model.Metadata
-namespace SpVerif.Props.C06Var
-open SpVerif
+import SpVerif.Props.C08
+import SpVerif.Proofs.Eof
+import SpVerif.Proofs.Finished
+import SpVerif.Proofs.Metadata
+/-!
+# C06 (part "var") — EOF, Finished and Metadata PDUs are encoded exactly per CCSDS 727.0-B-5 §5.2
+and round-trip
 
-theorem C06_eof_placeholder : (1 : Nat) = 1 := rfl
+Property theorems only. (Base class, ACK, Prompt, Keep Alive and NAK are in `Props/C06Fixed.lean`;
+`WFConf`, `WFBase`, `Spec.pdu`, `crcLen` are shared with that part.)
+
+Layout (727.0-B-5 §5.2): fixed PDU header ‖ directive code ‖ parameters ‖ CRC-16 iff the CRC flag
+is set, the data-field length counting every octet after the header, with the parameters
+
+* EOF (code 4, §5.2.2, towards the receiver): `condition code (4 bits) | spare (4 bits)`, file
+  checksum (4 octets), file size (FSS: 32 bits, 64 with the large-file flag), optional fault
+  location (entity-ID TLV: type 6, length, value);
+* Finished (code 5, §5.2.3, towards the sender): `condition code (4) | spare (1) | delivery code
+  (1) | file status (2)`, filestore responses (TLVs of type 1, list order), optional fault
+  location (not with condition code "no error" / "unsupported checksum type");
+* Metadata (code 7, §5.2.5, towards the receiver): `reserved (1) | closure requested (1) |
+  reserved (2) | checksum type (4)`, file size (FSS), source file name (LV), destination file name
+  (LV), options (TLVs, list order).
+
+All three decoders read the declared PDU only: whatever follows it is ignored
+(`C06_*_roundtrip` hold with an arbitrary suffix), and the CRC trailer is never parsed as a TLV.
+-/
+namespace SpVerif.Props.C06Var
+open SpVerif SpVerif.CfdpHeader SpVerif.FileDirective SpVerif.Tlv SpVerif.Lv
+open SpVerif.Eof SpVerif.Finished SpVerif.Metadata
+open SpVerif.Props.C06Fixed (WFConf dirHeader crcLen WFBase)
+open SpVerif.Nak (fits)
+
+/-! ### shared machinery -/
+
+private theorem wf_dirHeader (c : PduConfig) (wf : WFConf c) (dir dlen : Nat) (hd : dir < 2) (hl : dlen < 65536) :
+    C05.WF (dirHeader c dir dlen) := by
+  obtain ⟨h1, h2, h3, _, h5, h6, h7, h8, h9⟩ := wf
+  exact ⟨Nat.zero_lt_two, hd, h1, h3, h2, h5, Nat.zero_lt_two, hl, h6, h7, h8, h9⟩
+
+private theorem spec_pdu_eq (fd : FileDirective) (P : Bytes) :
+    C06Fixed.Spec.pdu fd P = withCrc fd.header.conf.crcFlag (specOctets fd ++ P) := rfl
+
+private theorem prelude_pdu (fd : FileDirective) (code dir : Nat) (P rest : Bytes)
+    (wf : WFBase fd code dir P.length) (hc : code < 256) :
+    prelude (C06Fixed.Spec.pdu fd P ++ rest) = .ok (fd, specOctets fd ++ P) ∧
+    (C06Fixed.Spec.pdu fd P).length = fd.packetLen := by
+  obtain ⟨w1, _, _, w4, _, w6⟩ := wf
+  rw [spec_pdu_eq]
+  exact prelude_spec fd w1 (by omega) P rest (by simpa [crcLen] using w6)
+
+private theorem octetAt_params (fd : FileDirective) (wf : C05.WF fd.header) (P : Bytes) (k : Nat) :
+    octetAt (specOctets fd ++ P) (fd.headerLen + k) = octetAt P k := by
+  rw [← specOctets_length fd wf]
+  simp [octetAt, List.getElem?_append_right]
+
+private theorem slice_params (fd : FileDirective) (wf : C05.WF fd.header) (P : Bytes) (s e : Nat) :
+    slice (specOctets fd ++ P) (fd.headerLen + s) (fd.headerLen + e) = slice P s e := by
+  rw [← specOctets_length fd wf]; exact slice_after _ _ _ _
+
+private theorem drop_params (fd : FileDirective) (wf : C05.WF fd.header) (P : Bytes) (k : Nat) :
+    (specOctets fd ++ P).drop (fd.headerLen + k) = P.drop k := by
+  rw [← specOctets_length fd wf]; exact drop_after _ _ _
+
+private theorem idx_params (fd : FileDirective) (wf : C05.WF fd.header) (P : Bytes) (k : Nat) :
+    idx (specOctets fd ++ P) (fd.headerLen + k) = idx P k := by
+  rw [← specOctets_length fd wf]; exact idx_after _ _ _
+
+private theorem pdu_len (fd : FileDirective) (code dir : Nat) (P : Bytes) (wf : WFBase fd code dir P.length) :
+    (C06Fixed.Spec.pdu fd P).length = fd.packetLen ∧
+    fd.header.dataFieldLen = (C06Fixed.Spec.pdu fd P).length - fd.header.headerLen ∧
+    fd.header.dataFieldLen = fd.packetLen - fd.header.headerLen ∧
+    (C06Fixed.Spec.pdu fd P).length = fd.header.headerLen + 1 + P.length + crcLen fd.header.conf := by
+  obtain ⟨w1, _, _, _, _, w6⟩ := wf
+  have hs := specOctets_length fd w1
+  have hhl : fd.headerLen = fd.header.headerLen + 1 := rfl
+  have hpl : fd.packetLen = fd.header.dataFieldLen + fd.header.headerLen := rfl
+  have : (C06Fixed.Spec.pdu fd P).length = fd.header.headerLen + 1 + P.length + crcLen fd.header.conf := by
+    rw [spec_pdu_eq]
+    unfold withCrc crcLen
+    split
+    · simp only [List.length_append, hs, Crc.crcTrailer, Crc.be16, List.length_cons, List.length_nil]; omega
+    · simp only [List.length_append, hs]; omega
+  omega
+
+private theorem pdu_crc (fd : FileDirective) (P : Bytes) :
+    (fd.header.conf.crcFlag = 1 →
+      C06Fixed.Spec.pdu fd P = (C05.Spec.octets fd.header ++ [u8 fd.code] ++ P)
+        ++ Crc.crcTrailer (C05.Spec.octets fd.header ++ [u8 fd.code] ++ P) ∧
+      Crc.crc16 (C06Fixed.Spec.pdu fd P) = 0) ∧
+    (fd.header.conf.crcFlag ≠ 1 → C06Fixed.Spec.pdu fd P = C05.Spec.octets fd.header ++ [u8 fd.code] ++ P) := by
+  constructor
+  · intro h
+    have : C06Fixed.Spec.pdu fd P = (C05.Spec.octets fd.header ++ [u8 fd.code] ++ P)
+        ++ Crc.crcTrailer (C05.Spec.octets fd.header ++ [u8 fd.code] ++ P) := by
+      simp [C06Fixed.Spec.pdu, withCrc, h]
+    exact ⟨this, by rw [this]; exact Crc.crc16_residue _⟩
+  · intro h
+    simp [C06Fixed.Spec.pdu, withCrc, h]
+
+private theorem pdu_truncated {α : Type} (f : FileDirective × Bytes → Py α) (fd : FileDirective)
+    (code dir : Nat) (P : Bytes) (wf : WFBase fd code dir P.length) (k : Nat)
+    (hk : k < (C06Fixed.Spec.pdu fd P).length) :
+    (prelude ((C06Fixed.Spec.pdu fd P).take k) >>= f) = .error .value := by
+  have hl := (pdu_len fd code dir P wf).1
+  have : ∃ R, C06Fixed.Spec.pdu fd P = specOctets fd ++ R := by
+    rw [spec_pdu_eq]; unfold withCrc
+    split
+    · exact ⟨P ++ Crc.crcTrailer (specOctets fd ++ P), by simp⟩
+    · exact ⟨P, rfl⟩
+  obtain ⟨R, hR⟩ := this
+  rw [hR] at hl hk ⊢
+  exact bind_prelude_truncated f fd wf.1 R hl k (by omega)
+
+/-- FSS width as `pack()` selects it -/
+private theorem wsel (fd : FileDirective) :
+    (if fd.header.largeFileFlagSet then 8 else 4) = fssWidth fd.header.conf.fileFlag := by
+  unfold PduHeader.largeFileFlagSet fssWidth
+  by_cases h : fd.header.conf.fileFlag = 1 <;> simp [h]
+
+private theorem byteOf_nibble (c : Int) (h0 : 0 ≤ c) (h : c < 16) :
+    byteOf (c * 16) = .ok (u8 (c.toNat * 16)) := by
+  unfold byteOf
+  have g : 0 ≤ c * 16 ∧ c * 16 < 256 := by omega
+  rw [if_pos g]
+  congr 2
+  omega
+
+private theorem byteOf_bad (c : Int) (h : c < 0 ∨ 16 ≤ c) : byteOf (c * 16) = .error .value := by
+  unfold byteOf
+  have g : ¬ (0 ≤ c * 16 ∧ c * 16 < 256) := by omega
+  rw [if_neg g]
+
+/-! ## fault location (shared by EOF and Finished) -/
+
+/-- a fault location as the library builds it: an entity-ID TLV (type 6) of 0..255 value octets -/
+def WFFault : Option EntityIdTlv → Prop
+  | none => True
+  | some t => t.tlv.ttype = 6 ∧ t.tlv.value.length ≤ 255
+
+instance (fl : Option EntityIdTlv) : Decidable (WFFault fl) := by
+  cases fl <;> unfold WFFault <;> infer_instance
+
+/-- the fault location as the standard lays it out: nothing, or type 6, length, entity ID -/
+def Spec.fault : Option EntityIdTlv → Bytes
+  | none => []
+  | some t => C08.Spec.entityId t.tlv.value
+
+private theorem fault_eta (t : EntityIdTlv) (h : t.tlv.ttype = 6) : (⟨⟨6, t.tlv.value⟩⟩ : EntityIdTlv) = t := by
+  cases t with
+  | mk tlv => cases tlv; simp_all
+
+private theorem packFault_spec (fl : Option EntityIdTlv) (wf : WFFault fl) :
+    Eof.packFaultLoc fl = .ok (Spec.fault fl) := by
+  cases fl with
+  | none => rfl
+  | some t =>
+    obtain ⟨h1, h2⟩ := wf
+    show t.tlv.pack = _
+    rw [CfdpTlv.pack_eq _ (by omega) h2, h1]
+    rfl
+
+private theorem fault_length (fl : Option EntityIdTlv) : (Spec.fault fl).length = Eof.faultLen fl := by
+  cases fl with
+  | none => rfl
+  | some t => simp [Spec.fault, C08.Spec.entityId, C08.Spec.tlv, Eof.faultLen, EntityIdTlv.packetLen,
+      CfdpTlv.packetLen]; omega
+
+/-- decoding a laid-out fault location, whatever follows -/
+private theorem unpack_fault (t : EntityIdTlv) (wf : WFFault (some t)) (rest : Bytes) :
+    EntityIdTlv.unpack (Spec.fault (some t) ++ rest) = .ok t := by
+  obtain ⟨h1, h2⟩ := wf
+  rw [EntityIdTlv.unpack_bind]
+  have := CfdpTlv.unpack_pack_append 6 t.tlv.value rest (by decide) h2
+  simp only [Spec.fault, C08.Spec.entityId, C08.Spec.tlv, List.cons_append]
+  rw [this, bind_ok, EntityIdTlv.fromTlv_eq]
+  simp only [tEntityId, ↓reduceIte]
+  rw [fault_eta t h1]
+
+/-! ## EOF (`C06_eof_*`) -/
+
+/-- valid EOF PDUs: every condition code nibble (all `ConditionCode` members), a 4-octet checksum,
+    a file size over the full range of the selected FSS width, no fault location or an entity-ID
+    TLV of any width 0..255, towards the receiver, any header configuration -/
+def WFEof (k : Eof) : Prop :=
+  0 ≤ k.cond ∧ k.cond < 16 ∧ k.checksum.length = 4 ∧
+  fits (fssWidth k.fd.header.conf.fileFlag) k.fileSize ∧ WFFault k.faultLoc ∧
+  WFBase k.fd 4 0 (5 + fssWidth k.fd.header.conf.fileFlag + (Spec.fault k.faultLoc).length)
+
+instance (k : Eof) : Decidable (WFEof k) := by unfold WFEof; infer_instance
+
+/-- the parameters of 727.0-B-5 §5.2.2 -/
+def Spec.eofParams (k : Eof) : Bytes :=
+  [u8 (k.cond.toNat * 16)] ++ k.checksum ++ beBytes (fssWidth k.fd.header.conf.fileFlag) k.fileSize.toNat
+    ++ Spec.fault k.faultLoc
+
+def Spec.eof (k : Eof) : Bytes := C06Fixed.Spec.pdu k.fd (Spec.eofParams k)
+
+private theorem eofParams_length (k : Eof) (hc : k.checksum.length = 4) :
+    (Spec.eofParams k).length = 5 + fssWidth k.fd.header.conf.fileFlag + (Spec.fault k.faultLoc).length := by
+  simp only [Spec.eofParams, List.length_append, List.length_cons, List.length_nil, hc, beBytes_length]
+
+private theorem eof_plen (f c : Nat) (fl : Option EntityIdTlv) :
+    eofParamLen f c fl + 1 = 1 + (5 + fssWidth f + (Spec.fault fl).length) + (if c = 1 then 2 else 0) := by
+  unfold eofParamLen; rw [fault_length]; omega
+
+private theorem eofParamLen_le (f c : Nat) (fl : Option EntityIdTlv) (wf : WFFault fl) :
+    eofParamLen f c fl + 1 ≤ 300 := by
+  unfold eofParamLen
+  have := Nak.fssWidth_le f
+  have : Eof.faultLen fl ≤ 257 := by
+    cases fl with
+    | none => simp [Eof.faultLen]
+    | some t => have := wf.2; simp [Eof.faultLen, EntityIdTlv.packetLen, CfdpTlv.packetLen]; omega
+  split <;> omega
+
+/-- the constructor accepts every configuration, every condition code, checksum of 4 octets, size
+    and fault location, forces the direction "towards receiver" and yields a valid PDU -/
+theorem C06_eof_new (c : PduConfig) (wf : WFConf c) (cs : Bytes) (size : Int) (fl : Option EntityIdTlv)
+    (cond : Int) (hcs : cs.length = 4) (hfl : WFFault fl) :
+    ∃ k, Eof.new c cs size fl cond = .ok k ∧ k.cond = cond ∧ k.checksum = cs ∧ k.fileSize = size ∧
+      k.faultLoc = fl ∧ k.fd.header.conf = { c with direction := 0 } ∧
+      (0 ≤ cond → cond < 16 → fits (fssWidth c.fileFlag) size → WFEof k) := by
+  rw [Eof.new_eq]
+  have hle := eofParamLen_le c.fileFlag c.crcFlag fl hfl
+  have g1 : ¬ cs.length ≠ 4 := by omega
+  have g2 : ¬ (c.source.width ≠ c.dest.width ∨ 65535 < eofParamLen c.fileFlag c.crcFlag fl + 1) := by
+    have := wf.2.2.2.2.2.2.2.2; omega
+  rw [if_neg g1, if_neg g2]
+  refine ⟨_, rfl, rfl, rfl, rfl, rfl, rfl, ?_⟩
+  intro h0 h1 h2
+  refine ⟨h0, h1, hcs, h2, hfl, ?_, rfl, rfl, rfl, rfl, ?_⟩
+  · exact wf_dirHeader c wf _ _ (by omega) (by omega)
+  · simp only [crcLen]; exact eof_plen _ _ _
+
+/-- a checksum that is not 4 octets long is refused (`ValueError`) -/
+theorem C06_eof_refuse_checksum (c : PduConfig) (cs : Bytes) (size : Int) (fl : Option EntityIdTlv)
+    (cond : Int) (h : cs.length ≠ 4) : Eof.new c cs size fl cond = .error .value := by
+  rw [Eof.new_eq, if_pos h]
+
+/-- **pack = standard layout**, for every valid EOF PDU in every header configuration -/
+theorem C06_eof_pack_exact (k : Eof) (wf : WFEof k) : k.pack = .ok (Spec.eof k) := by
+  obtain ⟨h0, h1, _, h3, h4, w1, _, _, w4, _, _⟩ := wf
+  unfold Eof.pack
+  rw [pack_spec k.fd w1 (by omega), byteOf_nibble _ h0 h1, wsel, Nak.packInt_fits _ _ h3, packFault_spec _ h4]
+  simp only [bind, Except.bind, pure, Except.pure, Spec.eof, C06Fixed.Spec.pdu, Spec.eofParams, specOctets,
+    List.append_assoc]
+
+/-- **a file size that does not fit the selected width makes `pack` fail, never truncate**
+    (`struct.error` from `struct.pack`; `ValueError` first if the condition code is no nibble) -/
+theorem C06_eof_fss_overflow (k : Eof) (wf : C05.WF k.fd.header) (hc : k.fd.code < 256)
+    (h : ¬ fits (fssWidth k.fd.header.conf.fileFlag) k.fileSize) :
+    k.pack = .error .struct ∨ k.pack = .error .value := by
+  unfold Eof.pack
+  rw [pack_spec k.fd wf hc, wsel]
+  have hs : packInt (fssWidth k.fd.header.conf.fileFlag) k.fileSize = .error .struct := by
+    unfold fits at h
+    by_cases h0 : k.fileSize < 0
+    · exact packInt_neg _ _ h0
+    · exact packInt_big _ _ (by omega) (by omega)
+  by_cases hcond : 0 ≤ k.cond ∧ k.cond < 16
+  · left
+    rw [byteOf_nibble _ hcond.1 hcond.2, hs]
+    rfl
+  · right
+    rw [byteOf_bad _ (by omega)]
+    rfl
+
+/-- `ConditionCode.NO_CONDITION_FIELD` (−1) is constructible but cannot be packed (`ValueError`) -/
+theorem C06_eof_no_condition_field (k : Eof) (wf : C05.WF k.fd.header) (hc : k.fd.code < 256)
+    (h : k.cond < 0 ∨ 16 ≤ k.cond) : k.pack = .error .value := by
+  unfold Eof.pack
+  rw [pack_spec k.fd wf hc, byteOf_bad _ h]
+  rfl
+
+/-- **length clauses**: 1 + 4 + FSS octets, plus the fault location TLV, plus 2 with CRC -/
+theorem C06_eof_len (k : Eof) (wf : WFEof k) :
+    (Spec.eof k).length = k.packetLen ∧
+    k.fd.header.dataFieldLen = (Spec.eof k).length - k.fd.header.headerLen ∧
+    k.fd.header.dataFieldLen = k.packetLen - k.fd.header.headerLen ∧
+    (Spec.eof k).length = k.fd.header.headerLen + 1
+      + (5 + fssWidth k.fd.header.conf.fileFlag + (Spec.fault k.faultLoc).length) + crcLen k.fd.header.conf := by
+  have hl := eofParams_length k wf.2.2.1
+  have := pdu_len k.fd 4 0 (Spec.eofParams k) (by rw [hl]; exact wf.2.2.2.2.2)
+  rw [hl] at this
+  exact this
+
+theorem C06_eof_crc (k : Eof) :
+    (k.fd.header.conf.crcFlag = 1 →
+      Spec.eof k = (C05.Spec.octets k.fd.header ++ [u8 k.fd.code] ++ Spec.eofParams k)
+        ++ Crc.crcTrailer (C05.Spec.octets k.fd.header ++ [u8 k.fd.code] ++ Spec.eofParams k) ∧
+      Crc.crc16 (Spec.eof k) = 0) ∧
+    (k.fd.header.conf.crcFlag ≠ 1 →
+      Spec.eof k = C05.Spec.octets k.fd.header ++ [u8 k.fd.code] ++ Spec.eofParams k) :=
+  pdu_crc k.fd (Spec.eofParams k)
+
+private theorem nibble_back (c : Nat) (h : c < 16) : c * 16 % 256 / 16 % 16 = c := by omega
+
+/-- **round trip, whatever follows the PDU**: decoding the packed PDU followed by arbitrary octets
+    returns the identical PDU (condition code, checksum, file size, fault location, header) — in
+    particular neither the CRC trailer nor trailing octets are read as a fault location -/
+theorem C06_eof_roundtrip (k : Eof) (wf : WFEof k) (rest : Bytes) :
+    Eof.unpack (Spec.eof k ++ rest) = .ok k := by
+  obtain ⟨h0, h1, hcs, hfit, hfl, wb⟩ := wf
+  have hpl := eofParams_length k hcs
+  have wb' : WFBase k.fd 4 0 (Spec.eofParams k).length := by rw [hpl]; exact wb
+  obtain ⟨hp, _⟩ := prelude_pdu k.fd 4 0 (Spec.eofParams k) rest wb' (by omega)
+  have w1 := wb.1
+  have hw := Nak.fssWidth_pos k.fd.header.conf.fileFlag
+  rw [Eof.unpack_eq, Spec.eof, hp]
+  show Eof.parse (k.fd, specOctets k.fd ++ Spec.eofParams k) = _
+  rw [Eof.parse_eq]
+  have hsl := specOctets_length k.fd w1
+  have hfe : Eof.fixedEnd k.fd = k.fd.headerLen + (5 + fssWidth k.fd.header.conf.fileFlag) := by
+    unfold Eof.fixedEnd; omega
+  have hlen : (specOctets k.fd ++ Spec.eofParams k).length
+      = k.fd.headerLen + (5 + fssWidth k.fd.header.conf.fileFlag) + (Spec.fault k.faultLoc).length := by
+    simp only [List.length_append, hsl, hpl]; omega
+  have c1 : ¬ (specOctets k.fd ++ Spec.eofParams k).length < Eof.fixedEnd k.fd := by omega
+  rw [if_neg c1]
+  -- the fixed parameters
+  have e0 : Eof.condOf k.fd (specOctets k.fd ++ Spec.eofParams k) = k.cond := by
+    unfold Eof.condOf
+    have := octetAt_params k.fd w1 (Spec.eofParams k) 0
+    rw [Nat.add_zero] at this
+    have hP0 : octetAt (Spec.eofParams k) 0 = k.cond.toNat * 16 % 256 := by
+      simp [Spec.eofParams, octetAt]
+    rw [this, hP0, nibble_back _ (by omega)]
+    omega
+  have e1 : Eof.checksumOf k.fd (specOctets k.fd ++ Spec.eofParams k) = k.checksum := by
+    unfold Eof.checksumOf
+    rw [slice_params k.fd w1]
+    have := slice_eq_of_append [u8 (k.cond.toNat * 16)] k.checksum
+      (beBytes (fssWidth k.fd.header.conf.fileFlag) k.fileSize.toNat ++ Spec.fault k.faultLoc)
+    simp only [List.length_cons, List.length_nil, hcs] at this
+    simpa [Spec.eofParams, List.append_assoc] using this
+  have e2 : Eof.sizeOf k.fd (specOctets k.fd ++ Spec.eofParams k) = k.fileSize := by
+    unfold Eof.sizeOf
+    rw [hfe, slice_params k.fd w1]
+    have := slice_eq_of_append ([u8 (k.cond.toNat * 16)] ++ k.checksum)
+      (beBytes (fssWidth k.fd.header.conf.fileFlag) k.fileSize.toNat) (Spec.fault k.faultLoc)
+    simp only [List.length_append, List.length_cons, List.length_nil, hcs, beBytes_length] at this
+    rw [show (0 + 1 + 4) = 5 from rfl] at this
+    rw [show Spec.eofParams k = [u8 (k.cond.toNat * 16)] ++ k.checksum
+      ++ beBytes (fssWidth k.fd.header.conf.fileFlag) k.fileSize.toNat ++ Spec.fault k.faultLoc from rfl, this,
+      beNat_beBytes _ _ hfit.2]
+    exact Nak.toNat_cast_fits _ _ hfit
+  rw [e0, e1, e2]
+  cases hf : k.faultLoc with
+  | none =>
+    have c2 : (specOctets k.fd ++ Spec.eofParams k).length = Eof.fixedEnd k.fd := by
+      rw [hlen, hf, hfe]; simp [Spec.fault]
+    rw [if_pos c2]
+    cases k
+    simp_all
+  | some t =>
+    rw [hf] at hfl hlen
+    have hpos : 0 < (Spec.fault (some t)).length := by
+      simp [Spec.fault, C08.Spec.entityId, C08.Spec.tlv]
+    have c2 : ¬ (specOctets k.fd ++ Spec.eofParams k).length = Eof.fixedEnd k.fd := by omega
+    rw [if_neg c2, hfe, drop_params k.fd w1]
+    have hd : (Spec.eofParams k).drop (5 + fssWidth k.fd.header.conf.fileFlag) = Spec.fault (some t) := by
+      rw [show Spec.eofParams k = ([u8 (k.cond.toNat * 16)] ++ k.checksum
+        ++ beBytes (fssWidth k.fd.header.conf.fileFlag) k.fileSize.toNat) ++ Spec.fault k.faultLoc from rfl, hf]
+      apply List.drop_left'
+      simp only [List.length_append, List.length_cons, List.length_nil, hcs, beBytes_length]
+    have hu := unpack_fault t hfl []
+    rw [List.append_nil] at hu
+    rw [hd, hu, bind_ok, Eof.calcLen_eq']
+    have hdl : k.fd.header.dataFieldLen
+        = eofParamLen k.fd.header.conf.fileFlag k.fd.header.conf.crcFlag (some t) + 1 := by
+      rw [eof_plen]; have := wb.2.2.2.2.2; rw [hf] at this; simpa [crcLen] using this
+    have g : ¬ 65535 < eofParamLen k.fd.header.conf.fileFlag k.fd.header.conf.crcFlag (some t) + 1 := by
+      have := w1.2.2.2.2.2.2.2.1; omega
+    rw [if_neg g, bind_ok, fd_eta k.fd _ hdl]
+    cases k
+    simp_all
+
+/-- widths `UnsignedByteField` supports; `EntityIdTlv.__eq__` raises `ValueError` for any other -/
+def EqWidth : Option EntityIdTlv → Prop
+  | none => True
+  | some t => t.value.length ∈ [1, 2, 4, 8]
+
+instance (fl : Option EntityIdTlv) : Decidable (EqWidth fl) := by
+  cases fl <;> unfold EqWidth <;> infer_instance
+
+private theorem optEntityBeq_refl (fl : Option EntityIdTlv) (h : EqWidth fl) :
+    Eof.optEntityBeq fl fl = .ok true := by
+  cases fl with
+  | none => rfl
+  | some t =>
+    have h' : t.value.length ∈ [1, 2, 4, 8] := h
+    simp [Eof.optEntityBeq, EntityIdTlv.beq, ubfValue, h', bind, Except.bind, pure, Except.pure]
+
+/-- the decoded PDU **compares equal** to the original (both ways) and **re-packs to the same
+    octets**; `==` needs a fault location whose entity ID has a width the library can compare -/
+theorem C06_eof_eq_repack (k : Eof) (wf : WFEof k) (hw : EqWidth k.faultLoc) (rest : Bytes) :
+    ∃ k', (k.pack >>= fun b => Eof.unpack (b ++ rest)) = .ok k' ∧ k' = k ∧
+      k.beq k' = .ok true ∧ k'.beq k = .ok true ∧ k'.pack = k.pack := by
+  refine ⟨k, ?_, rfl, ?_, ?_, rfl⟩
+  · rw [C06_eof_pack_exact k wf]; exact C06_eof_roundtrip k wf rest
+  all_goals simp [Eof.beq, beq_refl, optEntityBeq_refl _ hw]
+
+/-- with a fault location of any other width `==` raises `ValueError` (documented; nothing is
+    compared wrongly) -/
+theorem C06_eof_eq_other_width (k : Eof) (t : EntityIdTlv) (hf : k.faultLoc = some t)
+    (hw : t.value.length ∉ [1, 2, 4, 8]) : k.beq k = .error .value := by
+  simp [Eof.beq, beq_refl, hf, Eof.optEntityBeq, EntityIdTlv.beq, ubfValue, hw, bind, Except.bind]
+
+/-- **the `fault_location` setter keeps the length consistent**: afterwards the PDU is the one a
+    fresh constructor call with the new fault location gives -/
+theorem C06_eof_set_fault_loc (c : PduConfig) (cs : Bytes) (size : Int) (fl fl' : Option EntityIdTlv)
+    (cond : Int) (hfl : WFFault fl) (hfl' : WFFault fl') :
+    (Eof.new c cs size fl cond >>= fun k => k.setFaultLoc fl') = Eof.new c cs size fl' cond := by
+  have h1 := eofParamLen_le c.fileFlag c.crcFlag fl hfl
+  have h2 := eofParamLen_le c.fileFlag c.crcFlag fl' hfl'
+  rw [Eof.new_eq, Eof.new_eq]
+  by_cases g1 : cs.length ≠ 4
+  · rw [if_pos g1, if_pos g1]; rfl
+  · rw [if_neg g1, if_neg g1]
+    by_cases g2 : c.source.width ≠ c.dest.width
+    · rw [if_pos (Or.inl g2), if_pos (Or.inl g2)]; rfl
+    · rw [if_neg (by omega), if_neg (by omega), bind_ok, Eof.setFaultLoc_eq]
+      have g3 : ¬ 65535 < eofParamLen c.fileFlag c.crcFlag fl' + 1 := by omega
+      simp only [g3, ↓reduceIte]
+
+/-- the decoder fails, for any octet string whatever, only with `ValueError`,
+    `UnsupportedCfdpVersion`, `InvalidCrc` or `TlvTypeMissmatch` — never `IndexError` / `struct.error` -/
+theorem C06_eof_documented (d : Bytes) : Documented (Eof.unpack d) := Eof.unpack_documented d
+
+/-- what acceptance means: the buffer holds the whole declared PDU, the CRC-16 over exactly the
+    declared PDU is zero when the flag is set, the decoded PDU is not longer than the declared one,
+    and the result depends on the declared PDU only (trailing octets are neither read nor required) -/
+theorem C06_eof_accept_sound (d : Bytes) (k : Eof) (h : Eof.unpack d = .ok k) :
+    ∃ fd p, prelude d = .ok (fd, p) ∧ fd.packetLen ≤ d.length ∧ k.packetLen ≤ fd.packetLen ∧
+      (fd.header.conf.crcFlag = 1 → Crc.crc16 (d.take fd.packetLen) = 0) ∧
+      ∀ rest, Eof.unpack (d.take fd.packetLen ++ rest) = .ok k := by
+  obtain ⟨fd, p, hp, hf, h3, h4, h5, h10⟩ := Eof.unpack_inv d k h
+  refine ⟨fd, p, hp, h3, h5, h4, fun rest => ?_⟩
+  rw [Eof.unpack_eq, prelude_take d fd p hp (by omega) rest]
+  exact hf
+
+/-- **every strict prefix of a packed PDU is refused with `ValueError`** -/
+theorem C06_eof_truncated (x : Eof) (wf : WFEof x) (k : Nat) (hk : k < (Spec.eof x).length) :
+    Eof.unpack ((Spec.eof x).take k) = .error .value := by
+  rw [Eof.unpack_eq]
+  exact pdu_truncated _ x.fd _ _ _ (by rw [eofParams_length x wf.2.2.1]; exact wf.2.2.2.2.2) k hk
+
+-- non-vacuity: FILE_CHECKSUM_FAILURE, 64-bit size with pairwise different octets, 2-octet fault location, CRC
+private def exEof : Eof :=
+  ⟨⟨⟨0, 0, 20, ⟨⟨2, 0x0102⟩, ⟨2, 0x0304⟩, ⟨1, 9⟩, 0, 1, 1, 0, 0⟩⟩, 4⟩, 5, [0xA1, 0xA2, 0xA3, 0xA4],
+    0x0102030405060708, some ⟨⟨6, [0x0A, 0x0B]⟩⟩⟩
+example : WFEof exEof := by decide
+example : EqWidth exEof.faultLoc := by decide
+example : Eof.new ⟨⟨2, 0x0102⟩, ⟨2, 0x0304⟩, ⟨1, 9⟩, 0, 1, 1, 1, 0⟩ [0xA1, 0xA2, 0xA3, 0xA4] 0x0102030405060708
+    (some ⟨⟨6, [0x0A, 0x0B]⟩⟩) 5 = .ok exEof := by rfl
+example : C05.Spec.octets exEof.fd.header ++ [u8 exEof.fd.code] ++ Spec.eofParams exEof
+    = [0x23, 0, 20, 0x10, 1, 2, 9, 3, 4, 4, 0x50, 0xA1, 0xA2, 0xA3, 0xA4, 1, 2, 3, 4, 5, 6, 7, 8, 6, 2, 0x0A, 0x0B] := by
+  decide
+example : WFEof ⟨⟨⟨0, 0, 10, ⟨⟨1, 0⟩, ⟨1, 0⟩, ⟨1, 0⟩, 0, 0, 0, 0, 0⟩⟩, 4⟩, 0, [0, 0, 0, 0], 4294967295, none⟩ := by decide
+example : ¬ fits 4 4294967296 := by decide
 
 end SpVerif.Props.C06Var
